@@ -2328,3 +2328,116 @@ Proof.
       * intros [j [Hj HH]]. destruct Hq as [Hq|Hq]; [subst q; lia|]. assert (q = j) by lia. subst j. split; [lia|exact HH].
     + exists q. auto.
 Qed.
+
+(* ------------------------------------------------------------------------------------------ *)
+(* 7. confirmed heights stay on the active chain; `current_height - h` never underflows *)
+
+(* the part of TxIndex's representation invariant needed here: distinct block hashes, each with
+   its entry in tx_in_block (so that remove_disconnected_block always finds the block) *)
+Definition idx_wf (i : txindex N) : Prop :=
+  NoDup (ti_blocks i) /\ forall h, In h (ti_blocks i) -> aget (ti_txs i) h <> None.
+
+Definition memo_ok (t : tower) : Prop := forall x hh, aget (car_memo t) x <> Some (ConfirmedIn hh).
+
+Definition heights_ok (t : tower) : Prop :=
+  forall k, In k (db_trks t) -> t_conf k = true -> mem_uuid (trk_uuid k) (reorged t) = false ->
+            t_height k <= gk_height t.
+
+Record chain_inv (t : tower) : Prop := {
+  ci_heights : heights_ok t;
+  ci_tip : (ti_tip (r_index t) <= Z.of_N (gk_height t))%Z;
+  ci_memo : memo_ok t;
+  ci_idx : idx_wf (r_index t)
+}.
+
+Lemma get_height_le_tip (i : txindex N) bh z : ti_get_height i bh = Some z -> (z <= ti_tip i)%Z.
+Proof.
+  unfold ti_get_height. destruct (positionN bh (ti_blocks i)) as [p|] eqn:E; [|discriminate].
+  apply positionN_lt in E. intros H. inversion H. lia.
+Qed.
+
+Lemma idx_wf_update (i : txindex N) b i' :
+  idx_wf i -> ~ In (ib_hash b) (ti_blocks i) -> ti_update i b = Some i' ->
+  idx_wf i' /\ ti_tip i' = (ti_tip i + 1)%Z /\
+  (forall h, In h (ti_blocks i') -> In h (ti_blocks i) \/ h = ib_hash b).
+Proof.
+  intros [Hnd Htx] Hfresh. unfold ti_update.
+  set (t1 := {| ti_index := ib_data b ++ ti_index i; ti_blocks := ti_blocks i ++ [ib_hash b];
+                ti_txs := ainsert (ti_txs i) (ib_hash b) (keys_of (ib_data b));
+                ti_tip := (ti_tip i + 1)%Z; ti_size := ti_size i |}).
+  assert (Hwf1 : idx_wf t1).
+  { split; cbn [ti_blocks ti_txs t1].
+    - apply NoDup_app_iff. repeat split; [exact Hnd|repeat constructor; intros []|].
+      intros x Hx [Hx'|[]]. subst x. contradiction.
+    - intros h Hh. unfold ainsert. cbn [aget]. destruct (N.eqb h (ib_hash b)) eqn:E; [discriminate|].
+      apply in_app_or in Hh. destruct Hh as [Hh|[Hh|[]]]; [apply Htx; exact Hh|].
+      subst h. rewrite N.eqb_refl in E. discriminate. }
+  assert (Hsub1 : forall h, In h (ti_blocks t1) -> In h (ti_blocks i) \/ h = ib_hash b).
+  { intros h Hh. cbn [ti_blocks t1] in Hh. apply in_app_or in Hh. destruct Hh as [Hh|[Hh|[]]]; auto. }
+  assert (Htip1 : ti_tip t1 = (ti_tip i + 1)%Z) by reflexivity.
+  clearbody t1.
+  destruct (ti_is_full t1).
+  - unfold ti_remove_oldest. destruct (ti_blocks t1) as [|h0 rest] eqn:Eb; [discriminate|].
+    destruct (aget (ti_txs t1) h0) as [ks|]; [|discriminate]. intros E. inversion E. subst i'. clear E.
+    destruct Hwf1 as [Hnd1 Htx1]. rewrite Eb in Hnd1, Htx1. apply NoDup_cons_iff in Hnd1. destruct Hnd1 as [Hh0 Hnd1].
+    split; [|split].
+    + split; cbn [ti_blocks ti_txs]; [exact Hnd1|].
+      intros h Hh. rewrite aget_remove. destruct (N.eqb h h0) eqn:E.
+      * apply N.eqb_eq in E. subst h. contradiction.
+      * apply Htx1. right. exact Hh.
+    + exact Htip1.
+    + cbn [ti_blocks]. intros h Hh. apply Hsub1. right. exact Hh.
+  - intros E. inversion E. subst i'. split; [exact Hwf1|]. split; [exact Htip1|exact Hsub1].
+Qed.
+
+Lemma last_map_some (l : list N) h : last (map Some l) None = Some h -> exists bs, l = bs ++ [h].
+Proof.
+  destruct l as [|x l] using rev_ind; [discriminate|]. rewrite map_app. cbn [map]. rewrite last_last.
+  intros E. inversion E. eauto.
+Qed.
+
+Lemma idx_wf_disconnect (i : txindex N) hash :
+  idx_wf i -> last (map Some (ti_blocks i)) None = Some hash ->
+  idx_wf (ti_disconnect i hash) /\ ti_tip (ti_disconnect i hash) = (ti_tip i - 1)%Z.
+Proof.
+  intros [Hnd Htx] Hl. destruct (last_map_some _ _ Hl) as [bs Eb].
+  unfold ti_disconnect. destruct (aget (ti_txs i) hash) as [ks|] eqn:Ea.
+  2:{ exfalso. apply (Htx hash); [rewrite Eb; apply in_or_app; right; left; reflexivity|exact Ea]. }
+  destruct (ti_blocks i) as [|b0 r0] eqn:E0; [destruct bs; discriminate|]. rewrite Eb in *.
+  rewrite removelast_last. apply NoDup_app_iff in Hnd. destruct Hnd as [Hnb [_ Hdis]].
+  split; [|reflexivity]. split; cbn [ti_blocks ti_txs]; [exact Hnb|].
+  intros h Hh. rewrite aget_remove. destruct (N.eqb h hash) eqn:E.
+  - apply N.eqb_eq in E. subst h. exfalso. apply (Hdis hash Hh). left. reflexivity.
+  - apply Htx. apply in_or_app. left. exact Hh.
+Qed.
+
+Lemma idx_wf_updates bs : forall (i i' : txindex N),
+  idx_wf i -> NoDup (map ib_hash bs) -> (forall b, In b bs -> ~ In (ib_hash b) (ti_blocks i)) ->
+  ti_updates i bs = Some i' -> idx_wf i'.
+Proof.
+  induction bs as [|b bs IH]; intros i i' Hwf Hnd Hfr E; cbn [ti_updates] in E; [inversion E; subst; exact Hwf|].
+  destruct (ti_update i b) as [i1|] eqn:E1; [|discriminate].
+  cbn [map] in Hnd. apply NoDup_cons_iff in Hnd. destruct Hnd as [Hb Hnd].
+  destruct (idx_wf_update i b i1 Hwf (Hfr b (or_introl eq_refl)) E1) as [Hwf1 [_ Hsub]].
+  apply (IH i1 i' Hwf1 Hnd); [|exact E].
+  intros b' Hb' Hin. destruct (Hsub _ Hin) as [H|H].
+  - apply (Hfr b' (or_intror Hb')). exact H.
+  - apply Hb. rewrite <- H. apply in_map. exact Hb'.
+Qed.
+
+Lemma chain_inv_init c h0 boot t0 : init c h0 boot = Some t0 -> NoDup (map fst boot) -> chain_inv t0.
+Proof.
+  unfold init. destruct (ti_new _ _) as [wc|]; [|discriminate].
+  destruct (ti_new (map (fun b => index_block (fst b) (snd b)) boot) (Z.of_N h0)) as [ri|] eqn:Er; [|discriminate].
+  intros E Hnd. inversion E. subst t0. clear E. constructor; cbn [db_trks gk_height r_index car_memo reorged].
+  - intros k [].
+  - unfold ti_new in Er. destruct (ti_updates _ _) as [t|]; [|discriminate]. inversion Er. cbn [ti_tip]. lia.
+  - intros x hh. cbn [aget]. discriminate.
+  - unfold ti_new in Er. destruct (ti_updates _ _) as [t|] eqn:Eu; [|discriminate]. inversion Er.
+    assert (Hwf : idx_wf t).
+    { eapply (idx_wf_updates _ _ t); [| | |exact Eu].
+      - split; cbn [ti_blocks]; [constructor|intros h []].
+      - rewrite map_rev, map_map. cbn [ib_hash index_block]. apply NoDup_rev. exact Hnd.
+      - intros b _ []. }
+    destruct Hwf as [H1 H2]. split; cbn [ti_blocks ti_txs]; assumption.
+Qed.
